@@ -55,6 +55,10 @@ type solver struct {
 	scopeDecl [][]string
 
 	trace     []string
+	frame     []string // commands of the current path frame
+	qdepth    int      // push depth (1 = path frame)
+	OneShots  int
+	oneShotLog []string
 	pending   int    // commands sent whose acknowledgement has not been read yet
 	broken    string // first error reported by the solver for a non-query command (sticky until resetPath)
 
@@ -136,6 +140,18 @@ func (s *solver) send(line string) {
 	if debugTrace {
 		s.trace = append(s.trace, line)
 	}
+	// commands of the path frame (outside query frames) are kept so that a
+	// query the incremental solver cannot decide can be re-posed one-shot
+	switch {
+	case strings.HasPrefix(line, "(push"):
+		s.qdepth++
+	case strings.HasPrefix(line, "(pop"):
+		s.qdepth--
+	default:
+		if s.qdepth == 1 {
+			s.frame = append(s.frame, line)
+		}
+	}
 	if s.log != nil {
 		fmt.Fprintln(s.log, line)
 	}
@@ -211,6 +227,7 @@ func (s *solver) resetPath() {
 	s.drain()
 	s.broken = ""
 	s.trace = s.trace[:0]
+	s.frame = s.frame[:0]
 	s.names = make(map[*Term]string)
 	s.declared = make(map[string]bool)
 	s.strlits = make(map[string]string)
@@ -751,4 +768,61 @@ func (s *solver) strModel(vars []*Term, aux []*Term, m *model) bool {
 		}
 	}
 	return true
+}
+
+// oneShot re-poses (path frame AND extra) to fresh, non-incremental solver
+// processes (full tactic pipelines): z3, then z3-new, then cvc5. The first
+// definite answer wins. Used when the incremental solver answers unknown.
+func (s *solver) oneShot(extra *Term, timeoutS int) satResult {
+	start := time.Now()
+	defer func() { s.Time += time.Since(start); s.OneShots++ }()
+	name := s.define(extra) // may add definitions to the frame
+	var sb strings.Builder
+	sb.WriteString("(declare-sort Str 0)\n")
+	for _, l := range s.frame {
+		if strings.HasPrefix(l, "(set-option") {
+			continue
+		}
+		sb.WriteString(l)
+		sb.WriteByte('\n')
+	}
+	sb.WriteString("(assert " + name + ")\n(check-sat)\n")
+	f, err := os.CreateTemp("", "verif-oneshot-*.smt2")
+	if err != nil {
+		return resUnknown
+	}
+	defer os.Remove(f.Name())
+	f.WriteString(sb.String())
+	f.Close()
+	// order: the integer encoding of bit-vector arithmetic first (it decides
+	// multiply/divide-by-constant kernels in milliseconds where bit-blasting
+	// does not finish), then the bit-blasting back ends
+	cmds := [][]string{
+		{"cvc5", "--lang=smt2", "--solve-bv-as-int=sum", "--tlimit=20000", f.Name()},
+		{"z3", fmt.Sprintf("-T:%d", timeoutS), f.Name()},
+		{"z3-new", fmt.Sprintf("-T:%d", timeoutS), f.Name()},
+		{"cvc5", "--lang=smt2", fmt.Sprintf("--tlimit=%d", timeoutS*1000), f.Name()},
+	}
+	for _, c := range cmds {
+		out, _ := exec.Command(c[0], c[1:]...).Output()
+		txt := strings.TrimSpace(string(out))
+		s.oneShotLog = append(s.oneShotLog, c[0]+" "+strings.Join(c[1:len(c)-1], " ")+": "+firstWord(txt))
+		if strings.Contains(txt, "(error") {
+			continue
+		}
+		switch {
+		case strings.HasPrefix(txt, "unsat"):
+			return resUnsat
+		case strings.HasPrefix(txt, "sat"):
+			return resSat
+		}
+	}
+	return resUnknown
+}
+
+func firstWord(s string) string {
+	if i := strings.IndexAny(s, " \n"); i > 0 {
+		return s[:i]
+	}
+	return s
 }
